@@ -576,16 +576,34 @@ func (e *eng) t2t3() {
 	}
 }
 
+// constStr finds one of the lexer's character class constants. The classes
+// are recognised by what they contain (the operator class has '+', the
+// bracket / separator class has '('), not by the identifier, which is free to
+// change.
 func (e *eng) constStr(rel, name string) (string, bool) {
 	pk := e.p.Pkg(rel)
 	if pk == nil {
 		return "", false
 	}
-	c, ok := pk.Types.Scope().Lookup(name).(*types.Const)
-	if !ok {
+	mark := "+"
+	if strings.HasPrefix(name, "non") {
+		mark = "("
+	}
+	var found []string
+	sc := pk.Types.Scope()
+	for _, n := range sc.Names() {
+		c, ok := sc.Lookup(n).(*types.Const)
+		if !ok {
+			continue
+		}
+		if v, ok := absint.ConstString(absint.Const{V: c.Val()}); ok && strings.Contains(v, mark) && len(v) > 3 {
+			found = append(found, v)
+		}
+	}
+	if len(found) != 1 {
 		return "", false
 	}
-	return absint.ConstString(absint.Const{V: c.Val()})
+	return found[0], true
 }
 
 func allIn(s, set string) bool {
